@@ -22,9 +22,8 @@ SAFETY_INVS = ["TypeOK", "UniqueNotices", "ExactlyOnce", "InOrder", "NoPhantom",
 def design(ctx, notes):
     w = ctx.pick(8, 16)
     if ctx.quick:
-        runs = [("Notices_mc.cfg", True, ["Add", "Poll", "Tick"]),
-                ("Notices_mc_narrow5.cfg", False, []),
-                ("Notices_mc_wait2.cfg", True, ["Add", "Poll", "WaitStart", "WakeCheck", "WaitTimeout"]),
+        runs = [("Notices_mc.cfg", False, []),
+                ("Notices_mc_wait2.cfg", True, ["Add", "Poll", "Tick", "WaitStart", "WakeCheck", "WaitTimeout"]),
                 ("Notices_mc_live2.cfg", False, [])]
         controls = [("Notices_mc_nobump.cfg", "invariant", "ExactlyOnce")]
     else:
@@ -134,8 +133,10 @@ def run(ctx):
 
     # ------------------------------------------------------------------ 2. T->I: replay TLC behaviours
     sims = []
-    for cfg, num, depth in (("Notices_sim.cfg", ctx.pick(150, 3000), ctx.pick(24, 36)),
-                            ("Notices_sim_addat.cfg", ctx.pick(50, 1000), ctx.pick(20, 30))):
+    simcfgs = [("Notices_sim.cfg", ctx.pick(200, 3000), ctx.pick(24, 36))]
+    if not ctx.quick:      # quick binds options.Time additions through the I->T histories only
+        simcfgs.append(("Notices_sim_addat.cfg", 1000, 30))
+    for cfg, num, depth in simcfgs:
         res = tlc.run(ctx, "Notices", cfg, simulate={"num": num, "file": True}, depth=depth, seed=ctx.seed, workers=1,
                       timeout=ctx.pick(600, 2400), name="sim_" + cfg[:-4])
         if not res.ok:
@@ -240,7 +241,7 @@ def run(ctx):
 
     samples = []
     cases_main = N.split_cases(ev_main)
-    for c in sorted(cases_main)[:3]:
+    for c in [c for c in sorted(cases_main) if sum(1 for e in cases_main[c] if e.get("res")) >= 2][:3]:
         evs = cases_main[c]
         samples.append({"script": N.key_of(by_case[c]),
                         "deliveries": [{"ev": e["ev"], "c": e["c"], "res": e["res"]} for e in evs if e["ev"] in ("Poll", "WaitReturn") and e.get("res")][:6]})
